@@ -27,7 +27,7 @@ SPEC = {
     "gens": [],
     "props": ["props/C33.v"],
     "corr": ["corr/Wheel_corr.v"],
-    "comps": [{"comp": "wheel", "n_quick": 900, "n_thorough": 20000}],
+    "comps": [{"comp": "wheel", "n_quick": 900, "n_thorough": 12000}],
     "trusted": ["model/Wheel.v is a hand-written mirror of /repo/timeout.go (tied by correspondence on Purge outputs)",
                 "Go int64 / time.Duration / time.Time arithmetic is modelled by Z with truncating division (exact while |now - lastTick| < 2^63 ns)",
                 "the bulk history for the item cache (> timerCacheMax recycled cells) is judged by specCheck in go/cmd/harness/c_wheel.go"],
